@@ -4,6 +4,9 @@ mod util;
 mod backoff;
 mod childrun;
 mod codec;
+mod fanout;
+mod mock;
+mod pubsub;
 mod topic;
 mod wire;
 
@@ -45,6 +48,8 @@ fn main() {
         "wire" => wire::run(&cfg),
         "codec" => codec::run(&cfg),
         "topic" => topic::run(&cfg),
+        "fanout" => fanout::run(&cfg),
+        "pubsub" => pubsub::run(&cfg),
         other => { eprintln!("unknown suite {other}"); std::process::exit(2); }
     }
 }
